@@ -161,7 +161,7 @@ def _tldset(d):
     return _TLDSET
 
 
-TLD_PREFIXES = ["", "a.", "www.a.co.", "xn--9ca."]
+TLD_PREFIXES = ["", "a.", "www.a.co.", "xn--9ca.", "é.", "xn--zz.", "É.xn--9ca."]
 TLD_FORMS = ["lower", "upper", "puny", "puny-upper"]
 
 
